@@ -376,6 +376,15 @@ where
             .collect();
         (progress, self.num_waiting, peers)
     }
+
+    /// Verification hook: makes every outstanding peer request `d` older.
+    pub fn verif_age(&mut self, d: std::time::Duration) {
+        for p in self.closest_peers.values_mut() {
+            if let QueryPeerState::Waiting(t) = &mut p.state {
+                *t = t.checked_sub(d).unwrap_or(*t);
+            }
+        }
+    }
 }
 
 #[derive(Debug, PartialEq, Eq, Copy, Clone)]
